@@ -72,7 +72,7 @@ technique_round3["C02"] += ", key-provenance rule for lower-case word tables, pe
 technique_round3["C06"] += ", global-rooted write rule over constructors and option constructors"
 technique_round3["C08"] += ", segment-provenance rule for source slices in render functions"
 technique_round3["C10"] += ", allocation-rooted application of functional options in constructors, segment-provenance rule for source slices in render functions"
-technique_round3["C11"] += ", allow-list of registration constructors for the options an Extend method passes on, per-edge byte-set data-flow over the typographer"
+technique_round3["C11"] += ", allow-list of registration constructors for the options an Extend method passes on, per-edge byte-set data-flow over the typographer, dominance of a caret test on the peeked line in the footnote parsers"
 technique_round3["C13"] += ", path rule: end pointers stored wherever the unlinked child was first or last, adopted-parameter propagation for detach-from-anywhere helpers"
 technique_round3["C15"] += ", allocation-rooted application of functional options in the heading parser constructors"
 technique_round3["C16"] += ", single-allocation rule for the table of running ordinals"
